@@ -66,6 +66,25 @@ func init() {
 		}
 		x.StrList("forwardSenders", c18Grep(x.Skeleton(fw),
 			"senderForDestination", "nodes == nil", "SenderForBundle", "node.Send(", "ReportFailure", "deleteAfterwards"))
+		// Core.receive: the known-bundle test (with the statement that follows it) and the notification, in source order
+		rc, err := x.Func(dir, "Core", "receive")
+		if err != nil {
+			return err
+		}
+		var recvOrder []string
+		rsk := x.Skeleton(rc)
+		for i, l := range rsk {
+			if strings.Contains(l, "len(bp.Constraints)") {
+				recvOrder = append(recvOrder, l)
+				if i+1 < len(rsk) {
+					recvOrder = append(recvOrder, rsk[i+1])
+				}
+			} else if strings.Contains(l, "NotifyNewBundle") {
+				recvOrder = append(recvOrder, l)
+			}
+		}
+		x.StrList("receiveOrder", recvOrder)
+
 		cp, err := x.Func(dir, "Core", "checkPendingBundles")
 		if err != nil {
 			return err
